@@ -14,7 +14,7 @@ import (
 
 type Config struct {
 	MaxPaths     int
-	MaxDepth     int  // inline depth
+	MaxDepth     int // inline depth
 	MaxUnroll    int
 	Safety       bool // emit implicit safety obligations
 	SafetyProps  []string
@@ -22,41 +22,41 @@ type Config struct {
 	Verbose      bool
 	NoContracts  map[string]bool // callees to inline even though they have contracts
 	ForceModular map[string]bool // callees summarised by havoc + contract even without ensures/assigns
-	Interference bool // shared stores (bigcache) may be changed by other goroutines between two calls
+	Interference bool            // shared stores (bigcache) may be changed by other goroutines between two calls
 	OnlyContract map[string]bool
 }
 
 type Exec struct {
 	TemporalHits map[*Temporal]int
-	Prog    *ssa.Program
-	G       *Gen
-	Specs   *SpecDB
-	Cfg     Config
-	Obls    []*Obligation
-	work    []*State
-	loops   map[*ssa.Function]*LoopInfo
-	entry   *ssa.Function
-	entryCt *Contract
-	paths   int
-	pathCap bool
-	globals map[*ssa.Global]*Object
-	textOrd map[*ssa.Function]map[ssa.Instruction]string
-	stateN  int
-	Notes   map[string]int
-	endStates int
-	Unsupported map[string]int
-	curNonNil bool
-	seq int
-	identObj map[string]*Object
-	vtxType  types.Type
-	walkerOf map[*Object]*Object
-	walkerSig map[*Object]*Object
-	txnDB    map[*Object]*Object
-	itemOf   map[*Object]itemRef
-	entryKV  map[*Object][2]*Term
+	Prog         *ssa.Program
+	G            *Gen
+	Specs        *SpecDB
+	Cfg          Config
+	Obls         []*Obligation
+	work         []*State
+	loops        map[*ssa.Function]*LoopInfo
+	entry        *ssa.Function
+	entryCt      *Contract
+	paths        int
+	pathCap      bool
+	globals      map[*ssa.Global]*Object
+	textOrd      map[*ssa.Function]map[ssa.Instruction]string
+	stateN       int
+	Notes        map[string]int
+	endStates    int
+	Unsupported  map[string]int
+	curNonNil    bool
+	seq          int
+	identObj     map[string]*Object
+	vtxType      types.Type
+	walkerOf     map[*Object]*Object
+	walkerSig    map[*Object]*Object
+	txnDB        map[*Object]*Object
+	itemOf       map[*Object]itemRef
+	entryKV      map[*Object][2]*Term
 	repoSentinel map[int64]bool
-	ifaceN   int64
-	subCollect *[]Value
+	ifaceN       int64
+	subCollect   *[]Value
 }
 
 func NewExec(prog *ssa.Program, specs *SpecDB, cfg Config) *Exec {
